@@ -158,7 +158,8 @@ class Expr:
         if isinstance(self.value, str):
             return self.value
         if isinstance(self.value, int):
-            return str(self.value)
+            # python refuses to convert very big integers to a decimal string (more than 4300 digits by default)
+            return str(self.value) if self.value.bit_length() <= 10000 else hex(self.value)
         raise FlipJumpExprException(f'bad expression: {self.value} (of type {type(self.value)})')
 
     def __repr__(self) -> str:
